@@ -288,14 +288,12 @@ static std::string step(const Toks& t)
 	}
 	if (op == "tabrtt" && t.size() >= 5) {
 		std::string ty = t[1] == "-" ? "" : t[1];
-		if (ty.find('h') != std::string::npos) return "bad-op";
 		std::string lens;
 		if (!writeTable(t, lens)) return "bad-op";
 		return readTable(ty.c_str());
 	}
 	if (op == "tabreadt" && t.size() == 3) {
 		std::string ty = t[1] == "-" ? "" : t[1];
-		if (ty.find('h') != std::string::npos) return "bad-op";
 		putFile(g_csv, unhex(t[2]));
 		return readTable(ty.c_str());
 	}
